@@ -1,0 +1,111 @@
+//go:build verif
+
+package astits
+
+// Verification hooks: thin exported wrappers around unexported pure functions, compiled only
+// with the "verif" build tag. No behaviour, no state.
+
+import (
+	"bytes"
+	"time"
+
+	"github.com/asticode/go-astikit"
+)
+
+func VerifComputeCRC32(bs []byte) uint32 { return computeCRC32(bs) }
+
+func VerifUpdateCRC32(crc32 uint32, bs []byte) uint32 { return updateCRC32(crc32, bs) }
+
+func VerifCRC32Table() (t [256]uint32) {
+	copy(t[:], tableCRC32[:])
+	return
+}
+
+func verifWriter() (*bytes.Buffer, *astikit.BitsWriter) {
+	buf := &bytes.Buffer{}
+	return buf, astikit.NewBitsWriter(astikit.BitsWriterOptions{Writer: buf})
+}
+
+func VerifParsePSIData(b []byte) (*PSIData, error) {
+	return parsePSIData(astikit.NewBytesIterator(b))
+}
+
+func VerifWritePSIData(d *PSIData) ([]byte, int, error) {
+	buf, w := verifWriter()
+	n, err := writePSIData(w, d)
+	return buf.Bytes(), n, err
+}
+
+func VerifCalcPSISectionLength(s *PSISection) uint16 { return calcPSISectionLength(s) }
+
+func VerifParseDescriptors(b []byte) ([]*Descriptor, int, error) {
+	i := astikit.NewBytesIterator(b)
+	ds, err := parseDescriptors(i)
+	return ds, i.Offset(), err
+}
+
+func VerifWriteDescriptorsWithLength(ds []*Descriptor) ([]byte, int, error) {
+	buf, w := verifWriter()
+	n, err := writeDescriptorsWithLength(w, ds)
+	return buf.Bytes(), n, err
+}
+
+func VerifParseDVBTime(b []byte) (time.Time, error) {
+	return parseDVBTime(astikit.NewBytesIterator(b))
+}
+
+func VerifWriteDVBTime(t time.Time) ([]byte, int, error) {
+	buf, w := verifWriter()
+	n, err := writeDVBTime(w, t)
+	return buf.Bytes(), n, err
+}
+
+func VerifParseDVBDurationMinutes(b []byte) (time.Duration, error) {
+	return parseDVBDurationMinutes(astikit.NewBytesIterator(b))
+}
+
+func VerifParseDVBDurationSeconds(b []byte) (time.Duration, error) {
+	return parseDVBDurationSeconds(astikit.NewBytesIterator(b))
+}
+
+func VerifWriteDVBDurationMinutes(d time.Duration) ([]byte, int, error) {
+	buf, w := verifWriter()
+	n, err := writeDVBDurationMinutes(w, d)
+	return buf.Bytes(), n, err
+}
+
+func VerifWriteDVBDurationSeconds(d time.Duration) ([]byte, int, error) {
+	buf, w := verifWriter()
+	n, err := writeDVBDurationSeconds(w, d)
+	return buf.Bytes(), n, err
+}
+
+func VerifParsePacket(b []byte) (*Packet, error) {
+	return parsePacket(astikit.NewBytesIterator(b), nil)
+}
+
+func VerifWritePacket(p *Packet) ([]byte, int, error) {
+	buf, w := verifWriter()
+	n, err := writePacket(w, p, MpegTsPacketSize)
+	return buf.Bytes(), n, err
+}
+
+func VerifParsePESData(b []byte) (*PESData, error) {
+	return parsePESData(astikit.NewBytesIterator(b))
+}
+
+func VerifWritePESHeader(h *PESHeader, payloadSize int) ([]byte, int, error) {
+	buf, w := verifWriter()
+	n, err := writePESHeader(w, h, payloadSize)
+	return buf.Bytes(), n, err
+}
+
+func VerifParsePTSOrDTS(b []byte) (*ClockReference, error) {
+	return parsePTSOrDTS(astikit.NewBytesIterator(b))
+}
+
+func VerifWritePTSOrDTS(flag uint8, cr *ClockReference) ([]byte, int, error) {
+	buf, w := verifWriter()
+	n, err := writePTSOrDTS(w, flag, cr)
+	return buf.Bytes(), n, err
+}
